@@ -18,7 +18,7 @@ C = {
          "Decides the hard-break table on all (previous kind, current kind) cubes, that the table is consulted first and cannot be weakened, that the search honours Must/MustNot, that Break decisions become real newlines, the single-line-comment safety net as a decision table of the emission step (with the calls made on every path), the bracket-only zero entries of the spacing table, and that token text changes only through the documented normalisations, each on its own token kind (who calls set_content, dispatch facts, partition / skip discipline of each re-assembler). Not the behaviour as a whole.",
          "Not decided: generic-bracket re-typing heuristics; full operator-pair gluing matrix; lines for which no wrapping is found keep input counters."),
  "C04": ("static analysis: loop-progress dataflow with inter-procedural must-advance summaries over the resolved call graph; closed panic-site inventory with re-derived guards; call-graph SCC inventory",
-         "Decides structural necessary conditions of termination / abort-freedom: progress witness on every cycle path of every parser/lexer/consolidator loop (closures and combinator parameters resolved, reviewed exceptions re-verified), every panic-capable site auto-verified or in a reviewed inventory keyed by canonical operands, search cut-off with fallback, recursion inventory (7 known findings: stack exhaustion), lexer dispatch totality. Six genuine defects were found with these rules and fixed. No running-time bound, no well-foundedness proof.",
+         "Decides structural necessary conditions of termination / abort-freedom: progress witness on every cycle path of every parser/lexer/consolidator loop (closures and combinator parameters resolved, reviewed exceptions re-verified), every panic-capable site auto-verified or in a reviewed inventory keyed by canonical operands, search cut-off with fallback, recursion inventory (7 known findings: stack exhaustion), lexer dispatch totality, memoisation of the wrapper's recursion into child lines (a necessary condition of the polynomial-time clause). Six genuine defects were found with these rules and fixed. No running-time bound, no well-foundedness proof.",
          "Not decided: polynomial time; number of conditional-directive passes; the 150 reviewed (not re-derived) invariants; add/mul overflow asserts."),
  "C06": ("static analysis: information-flow inventory (closed who-reads sets over MIR places and accessor calls)",
          "Decides one necessary condition of layout independence: the complete inventory of program points that can observe the input's layout equals the reviewed set (the three facts the property allows, the whitespace-to-counts reduction, emission, cursor code), every decision of a solved line overwrites the inherited counters, and the spacing table decides every gap: for every (previous kind, next kind) someone sets the space between them. The two-run relation itself is not decided.",
